@@ -888,8 +888,77 @@ def check_decode_is_fresh(ctx):
             ctx.violation('encode-depends-on-history', {'parts': repr(parts)}, f'encoded as {got!r} after earlier encodings in this process, expected {want!r}')
 
 
+ORDER_PROBE = r'''
+import sys, json
+from datetime import datetime, timedelta, timezone, tzinfo
+from zoneinfo import ZoneInfo
+import pytz, dateutil.tz
+from icalendar import Event
+from icalendar.prop import vRecur, vDatetime
+
+class Fixed(tzinfo):
+    # the fixed-offset recipe of the Python documentation, with a constant repr
+    def __init__(self, minutes, name):
+        self._o, self._n = timedelta(minutes=minutes), name
+    def utcoffset(self, dt): return self._o
+    def tzname(self, dt): return self._n
+    def dst(self, dt): return timedelta(0)
+    def __repr__(self): return 'Fixed()'
+
+class Plain(tzinfo):
+    def __init__(self, minutes, name):
+        self._o, self._n = timedelta(minutes=minutes), name
+    def utcoffset(self, dt): return self._o
+    def tzname(self, dt): return self._n
+    def dst(self, dt): return timedelta(0)
+
+zones = [('utc', timezone.utc), ('zi-utc', ZoneInfo('UTC')), ('pytz-utc', pytz.utc), ('du-utc', dateutil.tz.tzutc()),
+         ('fixed-utc', Fixed(0, 'UTC')), ('fixed-cet', Fixed(60, 'CET')), ('plain-est', Plain(-300, 'EST')), ('plain-utc', Plain(0, 'UTC')),
+         ('tzrange-est', dateutil.tz.tzrange('EST', -18000, 'EDT')), ('tzrange-utc', dateutil.tz.tzrange('UTC', 0)),
+         ('tzoffset-0', dateutil.tz.tzoffset(None, 0)), ('tzoffset-1', dateutil.tz.tzoffset('X', 3600)),
+         ('berlin', ZoneInfo('Europe/Berlin')), ('fixed-utc-2', Fixed(0, 'UTC'))]
+if sys.argv[1] == 'reverse':
+    zones = zones[::-1]
+out = {}
+for label, z in zones:
+    d = datetime(2030, 1, 10, 9, 0, 0, tzinfo=z)
+    try:
+        rule = vRecur(freq='daily', until=d).to_ical().decode()
+    except Exception as e:
+        rule = 'raised ' + type(e).__name__
+    try:
+        ev = Event(); ev.add('dtstart', d); start = [ln for ln in ev.to_ical().decode().split('\r\n') if ln.startswith('DTSTART')][0]
+    except Exception as e:
+        start = 'raised ' + type(e).__name__
+    out[label] = [rule, start]
+print(json.dumps(out))
+'''
+
+
+def check_order_independence(ctx):
+    """what a rule (its UNTIL) and a DTSTART are written as depends on the value, not on which values were written
+    earlier in the process: the same tzinfo objects in forward and in reverse order give the same texts"""
+    import json
+    import subprocess
+    res = {}
+    for order in ('forward', 'reverse'):
+        p = subprocess.run(['/venv/bin/python', '-c', ORDER_PROBE, order], stdout=subprocess.PIPE, stderr=subprocess.PIPE,
+                           text=True, timeout=300)
+        ctx.evaluated(('order-probe', order))
+        if p.returncode != 0:
+            ctx.violation('order-probe-failed', {'order': order}, p.stderr[-400:])
+            return
+        res[order] = json.loads(p.stdout.strip().splitlines()[-1])
+    for label, texts in res['forward'].items():
+        if texts != res['reverse'][label]:
+            ctx.violation('encoding-depends-on-history', {'tzinfo': label, 'forward': texts, 'reverse': res['reverse'][label]},
+                          f'the value with tzinfo {label} is written {texts} when encoded after the others in one order and '
+                          f'{res["reverse"][label]} in the other order')
+
+
 def oracle(ctx):
     check_decode_is_fresh(ctx)
+    check_order_independence(ctx)
     n = 0
     for parts in all_rules(ctx):
         n += 1
